@@ -22,7 +22,7 @@ def _bounded_c07(eng, tier, seed):
     return r
 
 
-EXTRA_CHECKS = [_bounded_c07]
+EXTRA_CHECKS = [_bounded_c07, _c._no_hidden_state]  # "no dependence on data outside b": the decoder keeps no state between calls
 NOT_COVERED = _c.NOT_COVERED_C07
 EXPLANATION = _c.EXPLANATION_C07
 ASSUMPTIONS = _c.ASSUMPTIONS
